@@ -499,7 +499,8 @@ namespace Pistache::Http
             // reserve what has arrived, not what the peer announces
             message->body_.reserve(message->body_.size() + std::min<size_t>(size, available));
 
-            if (available + alreadyAppendedChunkBytes < size + 2)
+            // (size + 2 would overflow for a chunk size close to the maximum)
+            if (available + alreadyAppendedChunkBytes - 2 < size)
             {
                 // Take the chunk's data only: a first byte of the CRLF that ends
                 // the chunk stays in the buffer until the CRLF is complete.
